@@ -22,11 +22,12 @@ def plan(tier):
     q = tier == "quick"
     return [dict(unit="lev", n=500 if q else 6000, builds=["py", "so"], case_timeout=180),
             dict(unit="fi", n=60 if q else 600, builds=["py"], case_timeout=60),
-            dict(unit="carry", n=300 if q else 3200, builds=["py", "so"], case_timeout=60)]
+            dict(unit="carry", n=300 if q else 3200, builds=["py", "so"], case_timeout=60),
+            dict(unit="entry", n=240 if q else 2400, builds=["py", "so"], case_timeout=60)]
 
 
 def floors(tier):
-    return {"min_decided": 300, "counters": {"c16_bankrupt_runs": 40, "c16_solvent_runs": 100, "post_bankruptcy_dates": 300, "spy_calls": 5000, "fi_negative_dates": 50, "carry_runs": 300, "carry_sign_flips": 100, "update_done_evals": 20000},
+    return {"min_decided": 300, "counters": {"c16_bankrupt_runs": 40, "c16_solvent_runs": 100, "post_bankruptcy_dates": 300, "spy_calls": 5000, "fi_negative_dates": 50, "carry_runs": 300, "entry_runs": 300, "entry_bankrupt_entry": 40, "entry_bankrupt_reentry": 40, "entry_bankrupt_hedge_only": 40, "carry_sign_flips": 100, "update_done_evals": 20000},
             "max_undecided_frac": 0.3}
 
 
@@ -243,11 +244,106 @@ def case_carry(cs):
     return common.result(common.HELD, sig=sig + [bool(run.root.bankrupt)], nt=True, cnt=cnt, sample=w)
 
 
+class Script(bt.Algo):
+    """quantity trades on given data rows"""
+
+    def __init__(self, trades):
+        super(Script, self).__init__()
+        self.trades = trades     # [(date, name, q)]
+
+    def __call__(self, target):
+        for d, nm, q in self.trades:
+            if d == target.now:
+                target.transact(q, child=nm)
+        return True
+
+
+def case_entry(cs):
+    """bankruptcies whose declaring update is the first one to see the positions: (a) an all-cash book enters through a spread wide enough to
+    wipe it out on the entry date, (b) the same on a re-entry after a stretch fully in cash, (c) a market-value root holding only hedge
+    instruments (which carry no notional) through a price crash"""
+    import random
+
+    import pandas as pd
+    from bt import algos
+    from bt.core import HedgeSecurity, Security
+
+    ins.install()
+    rng = random.Random(cs)
+    rs = np.random.RandomState(cs % (2 ** 32))
+    nd = rng.randint(6, 10)
+    dts = pd.date_range("2021-03-01", periods=nd, freq="B")
+    K = rng.choice([1e4, 1e5])
+    integer = rng.random() < 0.4
+    kind = rng.choice(["entry", "reentry", "hedge_only"])
+    px = 100 * np.exp(np.cumsum(rs.randn(nd, 2) * 0.01, axis=0))
+    data = pd.DataFrame(px, index=dts, columns=["a", "b"])
+    ex = {}
+    comm = "none"
+    w = {"case_seed": cs, "kind": kind, "capital": K, "integer": integer}
+    if kind in ("entry", "reentry"):
+        L = rng.uniform(3.0, 5.0)
+        f = rng.uniform(1.0, 1.9)
+        k0 = 0 if kind == "entry" else rng.randint(3, nd - 2)
+        bo = np.zeros((nd, 2))
+        bo[k0:, :] = f * px[k0:, :]
+        ex["bidoffer"] = pd.DataFrame(bo, index=dts, columns=["a", "b"])
+        tw = np.full((nd, 2), np.nan)
+        if kind == "reentry":
+            tw[0] = [0.5, 0.3]
+            tw[rng.randint(1, k0 - 1)] = [0.0, 0.0]
+        tw[k0] = [L * 0.6, L * 0.4] if rng.random() < 0.7 else [L, 0.0]
+        ex["tw"] = pd.DataFrame(tw, index=dts, columns=["a", "b"]).dropna(how="all")
+        w.update(leverage=L, spread_over_price=f, entry_row=k0)
+        ctx_holder = []
+
+        def mk(ctx):
+            return bt.Strategy("s", [CallSpy(ctx), algos.WeighTarget("tw"), algos.Rebalance()], children=[Security("a"), Security("b")] if rng.random() < 0.5 else None)
+    else:
+        q = rng.choice([-1, 1]) * rng.uniform(2.0, 4.0) * K / 100.0
+        if integer:
+            q = float(int(q))
+        k0 = rng.randint(2, nd - 2)
+        data.loc[dts[k0]:, "a"] = data.loc[dts[k0 - 1], "a"] * (0.4 if q > 0 else 1.7)
+        w.update(hedge_quantity=q, crash_row=k0)
+
+        def mk(ctx):
+            return bt.Strategy("s", [CallSpy(ctx), Script([(dts[0], "a", q)])], children=[HedgeSecurity("a"), Security("b")])
+    sig = ["entry", kind, integer]
+    ins.reset()
+    ctx = SpyCtx()
+    st = mk(ctx)
+    r = w2.Run()
+    r.spec = {"comm": comm}
+    mark = len(ins.EV)
+    try:
+        r.bt = bt.Backtest(st, data, initial_capital=K, integer_positions=integer, additional_data=ex)
+        r.bt.run()
+    except Exception as e:
+        if isinstance(e, ZeroDivisionError) or common.is_guard_exc(e):
+            return common.result(common.OOD, sig=sig, why="zero base / sizing guard", sample=w)
+        return common.result(common.INC, sig=sig, why="bt raised %s: %s" % (type(e).__name__, str(e)[:100]))
+    r.exc = None
+    r.root = r.bt.strategy
+    r.all_events = ins.EV[mark:]
+    r.events = [e for e in r.all_events if e.get("root") is r.root]
+    r.dates = list(r.bt.dates)
+    cnt = {"entry_runs": 1}
+    if r.root.bankrupt:
+        common.bump(cnt, "entry_bankrupt_" + kind)
+    out = oracle(r, cnt, {}, ctx)
+    if out:
+        return common.result(common.VIOL, sig=sig, nt=True, cnt=cnt, mech=out[0], witness=dict(w, **out[1]), sample=w)
+    return common.result(common.HELD, sig=sig + [bool(r.root.bankrupt)], nt=True, cnt=cnt, sample=w)
+
+
 def run_case(unit, cs, idx, build, params):
     if unit == "fi":
         return case_fi(cs)
     if unit == "carry":
         return case_carry(cs)
+    if unit == "entry":
+        return case_entry(cs)
     opts = dict(leverage=True, jumps=2, flows=False, solvers=False, late_p=0.2, nested_p=0.4)
     r = _w2case.run_w2(cs, [oracle], gen_opts=opts, setup=SpyCtx)
     if r.get("sig") is not None:
